@@ -109,10 +109,10 @@ def battery(work):
 def child(args):
     mode, payload, bpath, work, idx = args
     ipath = os.path.join(work, "in-%s-%d.json" % (mode, idx))
-    if mode != "stress":
+    if mode not in ("stress", "shared"):
         json.dump(payload, open(ipath, "w"))
     env = dict(os.environ, PYTHONPATH=os.path.join(common.REPO, "packages", "python") + os.pathsep + common.VERIF, PYTHONHASHSEED="0")
-    p = subprocess.run([common.PY, "-m", "harness.c19_child", mode, ipath if mode != "stress" else str(payload), bpath],
+    p = subprocess.run([common.PY, "-m", "harness.c19_child", mode, ipath if mode not in ("stress", "shared") else str(payload), bpath],
                        cwd=common.VERIF, env=env, stdout=subprocess.PIPE, stderr=subprocess.PIPE, timeout=300)
     if p.returncode != 0:
         raise common.MachineryError("c19 child failed (%s %d):\n%s" % (mode, idx, p.stderr.decode()[-1500:]))
@@ -153,6 +153,7 @@ def check(tier):
         jobs = [("hist", h, bpath, work, i) for i, h in enumerate(hists)]
         jobs += [("sched", s, bpath, work, i) for i, s in enumerate(sel)]
         jobs += [("stress", 16, bpath, work, i) for i in range(stress_runs)]
+        jobs += [("shared", 8, bpath, work, i) for i in range(stress_runs)]
         with cf.ThreadPoolExecutor(max_workers=common.NCPU) as ex:
             runs = list(ex.map(child, jobs))
         tp = os.path.join(work, "trace.json")
@@ -183,7 +184,7 @@ def check(tier):
         "maximal_schedules_in_spec": len(scheds), "schedules_forced": len(sel),
         "abstract_transitions": ntrans, "abstract_transitions_covered_by_selection": ntrans if sel else 0,
         "schedule_steps_forced_exactly": forced, "schedule_steps_deviated": deviated,
-        "histories": len(hists), "history_max_len": hist_len, "stress_runs": stress_runs, "battery_inputs": len(bat),
+        "histories": len(hists), "history_max_len": hist_len, "stress_runs": stress_runs, "shared_converter_runs": stress_runs, "battery_inputs": len(bat),
         "exhaustive": tier == "thorough",
         "rule": "every maximal behaviour of ConverterInit.tla (2 threads, KItems=2, NClasses=2, unlocked design = most adversarial interleavings) is a schedule; quick forces a transition-covering subset, thorough all of them; every creation history over {fresh,user,user_nodetail,same_again} up to the bound; each run in a fresh interpreter; all Create/Probe events validated by ConverterHistory.tla",
         "samples": [{"schedule": [[x["t"], x["a"]] for x in sel[0]]}, {"history": hists[0]}, {"first_events": runs[0]["events"][:4]}],
